@@ -15,7 +15,7 @@ BOUNDS = {
              "(any integer >= 0) and the rank shape that separates the insertion staging area. Buffet: all read/write traces with <= 2 rows over 2 outer-loop iterations, "
              "positions {0,1,staging}, read-only / write-only / read+write rows, evict-on root and M, line = 1, 2 or 3 elements, plus curated 3-row traces and a two-binding "
              "(rank M + rank K) skeleton. Cache: all line sequences of length <= 5 over <= 3 lines (restricted-growth strings, two position embeddings) against exhaustive "
-             "optimal replacement with bypass. filterTrace / _combineTraces: concrete text-level checks only",
+             "optimal replacement with bypass. filterTrace / _combineTraces: concrete text-level checks only; 3-element lines, 'elem' (interleaved, 'U' rank with coordinate bits) and 'coord' bindings, two bindings listed inner-first with different footprints",
     "thorough": "buffet traces with <= 3 rows exhaustively; cache sequences of length <= 7 over <= 4 lines; write traces for the cache",
 }
 OUTSIDE = ("trace content is enumerated, not solver-quantified (CSV parsing and dict keys realise it); traces longer than the bound; more than two bindings; "
